@@ -2,6 +2,7 @@
 condition of the partial cell, display order, wide_bar width source). The float rounding at particular
 (fraction, width, charset) triples is NOT decided."""
 import json
+import re
 
 from .. import common as K
 from ..facts import Call, operand_local, place_fields, const_val
@@ -442,6 +443,14 @@ def run(ctx, crate):
         ctx.check(ok, rule, "none-iff-no-flag#%d" % k, b.name, "%s:%d" % (b.file, d.get("line", 0)),
                   "no partial cell only when the flag is 0", "the partial cell is dropped although the flag is 1 (the bar would be one cell short)", cfg)
 
+    then_closures = []
+    for c in thens:
+        l2 = operand_local(c.args[1])
+        for d in b.defs().get(l2, ()) if l2 is not None else ():
+            if d["kind"] == "assign" and d["rv"]["k"] == "agg" and d["rv"].get("ak") == "closure" and d["rv"]["def"] in crate.bodies:
+                then_closures.append(crate.bodies[d["rv"]["def"]])
+    rule_cur_range(ctx, crate, b, somes, then_closures)
+
     # ---- R-BAR-REST ---------------------------------------------------------------------------------------
     rule = "R-BAR-REST"
     rcons = [(cb, i, j, s) for (cb, i, j, s) in K.constructions(crate, RSD) if cb.name == b.name]
@@ -613,3 +622,131 @@ def rule_char_width_coherent(ctx, crate, rule="R-CHAR-WIDTH-COHERENT"):
                 ctx.check(ok, rule, "constructor-coherent", b.name, "%s:%d" % (b.file, s.get("line", 0)),
                           "a new style's char_width is width() of its own progress_chars", "a new style's char_width is not computed from its progress_chars", cfg)
     ctx.floor(rule, n, 2, cfg, "functions installing a progress_chars table")
+
+
+def rule_cur_range(ctx, crate, b, somes, then_closures=(), rule="R-BAR-CUR"):
+    """The partial cell is a *partial* glyph: with n fine-grained entries (n = progress_chars.len() - 2 > 1) its index lies in
+    1..=n - never 0 (the filled glyph: the bar would show one filled cell too many and look complete before it is) and never
+    n+1 (the background). Decided by interval arithmetic over the symbol n on the symbolic value of the index (loop-free
+    body): fract(x) in [0,1); c - [a,b) = (c-b, c-a]; [a,b) * n scales; truncation of [0, n) is 0..=n-1 but of (0, n] is 0..=n;
+    n (saturating-)minus 0..=n-1 is 1..=n."""
+    from ..symval import SymExec
+    cfg = crate.config
+    sx = SymExec(b)
+    if not sx.ok:
+        return
+    F = lambda a, bb_: (a, bb_)          # a*n + b
+
+    def is_n(e):
+        return isinstance(e, tuple) and e[0] == "call" and re.search(r"saturating_sub|wrapping_sub|checked_sub", e[1]) and len(e[2]) == 2 and \
+            e[2][1][0] == "const" and e[2][1][1] == 2 and "len" in str(e[2][0][1] if e[2][0][0] == "call" else "")
+
+    def rng(e, depth=0):
+        """(lo, lo_open, hi, hi_open, is_int) with lo/hi = (a, b) meaning a*n + b; None = unknown"""
+        if depth > 30 or not isinstance(e, tuple):
+            return None
+        if is_n(e) or (e[0] == "bin" and e[1] in ("Sub", "SubWithOverflow") and is_n(("call", "saturating_sub", (e[2], e[3])))):
+            return (F(1, 0), False, F(1, 0), False, True)
+        if e[0] == "const":
+            v = e[1]
+            if isinstance(v, bool):
+                return None
+            if isinstance(v, int):
+                return (F(0, v), False, F(0, v), False, True)
+            try:
+                fv = float(v)
+            except (TypeError, ValueError):
+                return None
+            return (F(0, fv), False, F(0, fv), False, False)
+        if e[0] == "cast":
+            r = rng(e[1], depth + 1)
+            if r is None:
+                return None
+            lo, lo_o, hi, hi_o, is_int = r
+            to_int = not str(e[2]).startswith("f")
+            if is_int and not to_int:
+                return (lo, lo_o, hi, hi_o, False)
+            if not is_int and to_int:
+                # truncation of a non-negative float range: floor of the lower end, hi stays when closed, drops by one when open
+                if lo[0] < 0 or (lo[0] == 0 and lo[1] < 0):
+                    return None
+                nlo = (lo[0], int(lo[1] // 1))
+                nhi = (hi[0], hi[1] - 1) if hi_o and float(hi[1]).is_integer() else (hi[0], int(hi[1] // 1))
+                return (nlo, False, nhi, False, True)
+            return r
+        if e[0] == "call" and re.search(r"f(32|64)>::fract$", e[1]):
+            return (F(0, 0.0), False, F(0, 1.0), True, False)
+        if e[0] == "call" and re.search(r"(saturating_sub|wrapping_sub)$", e[1]) and len(e[2]) == 2 or e[0] == "bin" and e[1] in ("Sub", "SubWithOverflow", "SubUnchecked"):
+            x, y = (e[2][0], e[2][1]) if e[0] == "call" else (e[2], e[3])
+            rx, ry = rng(x, depth + 1), rng(y, depth + 1)
+            if rx is None or ry is None:
+                return None
+            lo = (rx[0][0] - ry[2][0], rx[0][1] - ry[2][1])
+            hi = (rx[2][0] - ry[0][0], rx[2][1] - ry[0][1])
+            return (lo, rx[1] or ry[3], hi, rx[3] or ry[1], rx[4] and ry[4])
+        if e[0] == "bin" and e[1] in ("Mul", "MulWithOverflow"):
+            rx, ry = rng(e[2], depth + 1), rng(e[3], depth + 1)
+            if rx is None or ry is None:
+                return None
+            for p_, q in ((rx, ry), (ry, rx)):
+                # q is exactly n (as float), p is a constant range
+                if q[0] == F(1, 0) and q[2] == F(1, 0) and p_[0][0] == 0 and p_[2][0] == 0 and p_[0][1] >= 0:
+                    return (F(p_[0][1], 0), p_[1], F(p_[2][1], 0), p_[3], p_[4] and q[4])
+            return None
+        if e[0] == "call" and re.search(r"(min|max)$", e[1]):
+            return None
+        return None
+    n_chk = 0
+    # (host body, local holding the index): the payload of `Some(..)`, or the value returned by the closure of `flag.then(|| ..)`
+    targets = [(b, sx, operand_local(d["rv"]["ops"][0])) for d in somes]
+    for cl in then_closures:
+        sxc = SymExec(cl)
+        if sxc.ok:
+            targets.append((cl, sxc, 0))
+    for b, sx, pl in targets:
+        if pl is None:
+            continue
+        # the definitions behind plain copies
+        cand, seen_l, work_l = [], set(), [pl]
+        while work_l:
+            l_ = work_l.pop()
+            if l_ in seen_l or l_ is None:
+                continue
+            seen_l.add(l_)
+            for dd in b.defs().get(l_, ()):
+                if dd["kind"] == "assign" and dd["rv"]["k"] == "use" and dd["rv"]["op"].get("k") in ("copy", "move") and not dd["rv"]["op"]["place"]["p"]:
+                    work_l.append(operand_local(dd["rv"]["op"]))
+                elif dd["kind"] in ("assign", "call"):
+                    cand.append(dd)
+        for dd in cand:
+            if dd["kind"] == "call":
+                c = dd["call"]
+                env = sx.env_at[c.bb]
+                e = ("call", c.path, tuple(sx.op(env, a) for a in c.args), c.bb)
+                where = c.loc()
+            elif dd["kind"] == "assign" and dd["rv"]["k"] in ("cast", "bin"):
+                env = dict(sx.env_in[dd["bb"]])
+                for st in b.stmts(dd["bb"]):
+                    if st.get("k") != "assign":
+                        continue
+                    if st["lhs"] == dd["lhs"] and st["rv"] is dd["rv"]:
+                        break
+                    if not st["lhs"]["p"]:
+                        env[st["lhs"]["l"]] = sx.rvalue(env, st["rv"])
+                e = sx.rvalue(env, dd["rv"])
+                where = "%s:%d" % (b.file, dd.get("line", 0))
+            else:
+                continue
+            r = rng(e)
+            n_chk += 1
+            if r is None:
+                ctx.bad(rule, "index-in-1..=n", b.name, where, "the range of the partial cell's index cannot be established (expected n - trunc(fract * n) with n = len - 2)", cfg)
+                continue
+            lo, lo_o, hi, hi_o, is_int = r
+            ge1 = lo[0] > 0 or (lo[0] == 0 and lo[1] >= 1)              # with n >= 2: a*n + b >= 1
+            le_n = hi[0] < 1 or (hi[0] == 1 and hi[1] <= 0)
+            ctx.check(ge1 and le_n, rule, "index-in-1..=n", b.name, where,
+                      "the partial cell's index lies in 1..=n (a partial glyph, never the filled glyph 0 nor the background n+1)",
+                      "the partial cell's index ranges over %s*n%+g ..= %s*n%+g: it can be %s - the bar then shows one filled cell too many (it looks complete before position reaches "
+                      "the length) or a background cell in the middle" % (lo[0], lo[1], hi[0], hi[1], "0, the filled glyph" if not ge1 else "n+1, the background glyph"), cfg)
+    ctx.floor(rule, n_chk, 1, cfg, "computed partial-cell indices (fine-grained branch)")
